@@ -9,7 +9,7 @@ MODEL = {
     'pairs': REFS2, 'project_lists': REFS2, 'lecturer_lists': REFS2, 'rank_lists': REFS2,
     'time_start': 'real', 'time_after_model_creation': 'real', 'time_after_solve': 'real',     # datetimes as seconds (T12)
     'project_closures': ('list', 'var'), 'abs_lec_diff': ('list', 'var'), 'lec_overload': ('list', 'aff'), 'lec_underload': ('list', 'aff'),
-    'info_string': ('str', 'info'), 'pulp_status': ('str', 'status'),
+    'info_string': ('str', 'info'), 'pulp_status': ('statusstr',), 'time_limit': 'optint',
     'OPTIMAL_PULP_STATUS': ('const_str', 'Optimal'), 'NOTSOLVED_PULP_STATUS': ('const_str', 'Not Solved'),
 }
 IOPT = ('dict', 'Instance_options', {'NUMAGENTS': 'int', 'TWOPL': 'bool', 'PC': 'bool'})
